@@ -116,6 +116,9 @@ Finish ==
                   /\ \A x \in texts \cup {T.file_rows[k] : k \in 1..Len(T.file_rows)} : CountText(T.file_rows, x) = cnt(x),
                   [file_rows |-> Len(T.file_rows), simulated_ok |-> Cardinality(sims), rows_written |-> Cardinality(written)]),
            Clause("fit_lock_sections_do_not_overlap", TRUE, overlap = {}, [overlapping |-> Cardinality(overlap)]),
+           \* a result file with rows is summarised: one block of statistics per requested output
+           Clause("C14_stats_present", Len(T.file_rows) > 0, Len(T.stats) = Len(T.outputs),
+                  [rows |-> Len(T.file_rows), outputs_requested |-> Len(T.outputs), outputs_summarised |-> Len(T.stats)]),
            IF Len(T.stats) > 0 THEN VAll([k \in 1..Len(T.stats) |-> StatClauses(k)]) ELSE V0 >>)
          fin == VJoin(v, run)
      IN PrintT(ToJson([tid |-> T.tid, e |-> fin.e, f |-> fin.f, s |-> fin.s, w |-> fin.w]))
